@@ -18,11 +18,11 @@ from ..core.framework import Ctx, b2s
 
 SPEC = {
     "modules": ["HC.Props.C19"],
-    "extracted": ["Cli", "Consts"],
+    "extracted": ["Cli", "Consts", "ConfigSites"],
     "technique": "Lean 4: `decide` over the CLI table regenerated from __main__.py + a general semantics theorem for the wiring; structural proofs for bind parsing, root_path, date arithmetic (omega) — tied by differential execution of every loader, every flag, bind shapes and sampled timestamps",
-    "level_text": "Proved in Lean: the command-line table extracted from the current __main__.py is wired one-to-one per a hand-written specification (decided exhaustively), and for ANY set of given flags the executed assignments are exactly 'application_path, then each given flag's own attribute := its own value' (cli_semantics, cli_sets_exactly, cli_pair, cli_absent_flag_is_noop); root_path is the given value minus trailing slashes; a bind given as str equals the one-element list; all loaders reduce to from_mapping (dunder names dropped) and one more key changes exactly its own attribute; host:port / bare host / [v6]:port / unix: / fd:// parse to the intended family, address and port for every host and port string of the stated shape; the date header is a 29-character IMF-fixdate with every field in range for every second up to year 9999; response headers are exactly date/server/alt-svc per the switches. Tie: every flag alone and in pairs through the real main(), every public key through all six loaders (files written to disk), bind strings through the real _create_sockets (recorded bind() arguments and real sockets), timestamps against wsgiref's formatter.",
+    "level_text": "Proved in Lean: the command-line table extracted from the current __main__.py is wired one-to-one per a hand-written specification (decided exhaustively), and for ANY set of given flags the executed assignments are exactly 'application_path, then each given flag's own attribute := its own value' (cli_semantics, cli_sets_exactly, cli_pair, cli_absent_flag_is_noop); root_path is the given value minus trailing slashes; a bind given as str equals the one-element list; all loaders reduce to from_mapping: the object loaders drop exactly dunder names and imported modules - the filter clauses are extracted from Config.from_object, so a class- or function-valued setting (logger_class) is handed on like any other (from_object_filter_spec, loaders_agree, from_object_drops, from_object_callable_setting) - and one more key changes exactly its own attribute; host:port / bare host / [v6]:port / unix: / fd:// parse to the intended family, address and port for every host and port string of the stated shape; the date header is a 29-character IMF-fixdate with every field in range for every second up to year 9999; response headers are exactly date/server/alt-svc per the switches. Tie: every flag alone and in pairs through the real main(), every public key (logger_class, Logger instances and ssl enums included) through all loaders - mapping, keywords, object, class, module, module.attribute, Python file, TOML file and the command line's -c file: / -c python: / -c toml (files written to disk), bind strings through the real _create_sockets (recorded bind() arguments and real sockets), timestamps against wsgiref's formatter.",
     "level_note": "Trusted: Lean kernel; extractor (argparse table and wiring recognised by shape, unknown shapes fail the tie); hand-written model HC/Pure/Config.lean; argparse, tomllib, importlib and the socket layer are runtime behaviour compared by execution only; Python int() accepts more spellings than the model's decimal parser (generator stays within decimal digits).",
-    "rule": "CLI: every wired flag alone (exhaustive) + flag pairs (quick: sample, thorough: all) with distinct random values, with/without a TOML file setting the same key; loaders: every literal-default key x 6 loaders; binds: shape grid x hosts x ports via recorded bind() arguments, plus real sockets; dates: boundary + random timestamps. distinct = (family, flag | flag pair | (loader,key) | bind shape | date class); non-trivial = a value different from the default is supplied",
+    "rule": "CLI: every wired flag alone (exhaustive) + flag pairs (quick: sample, thorough: all) with distinct random values, with/without a TOML file setting the same key; loaders: every public Config key x its value types (literals; a Logger subclass and a logger factory function for logger_class; logging.Logger instances; ssl.VerifyMode / VerifyFlags members) x 11 loaders, TOML only for values TOML can spell; binds: shape grid x hosts x ports via recorded bind() arguments, plus real sockets; dates: boundary + random timestamps. distinct = (family, flag | flag pair | (loader,key) | bind shape | date class); non-trivial = a value different from the default is supplied",
     "trusted": ["argparse / tomllib / importlib / socket behaviour (compared by execution, not modelled)"],
     "partial": ["bind_host_port excludes the host spelled `unix` (`unix:80` is a unix-socket path by design of the syntax)",
                 "bare bracketed IPv6 without a port is outside the proved shapes; see known finding F22 if listed"],
@@ -53,8 +53,8 @@ def snapshot(config) -> Dict[str, str]:
             v = getattr(config, n)
         except AttributeError:
             continue
-        if callable(v):
-            continue
+        if callable(v) and n not in vars(config) and n != "logger_class":
+            continue        # methods of Config; a callable *setting* (logger_class, or anything a loader stored) is compared
         out[n] = repr(v)
     return out
 
@@ -255,17 +255,42 @@ def _args_from_parser() -> List[dict]:
 # --------------------------------------------------------------------------------------------------------------
 # loaders
 # --------------------------------------------------------------------------------------------------------------
-def _key_values(rng) -> Dict[str, List[Any]]:
+class PyVal:
+    """a value with the Python source that denotes it (for configuration files) — `toml` when TOML can spell it too"""
+
+    def __init__(self, value: Any, expr: Optional[str] = None, imports: str = "", toml: Optional[bool] = None) -> None:
+        self.value, self.expr, self.imports = value, (repr(value) if expr is None else expr), imports
+        self.toml = (expr is None and not isinstance(value, dict)) if toml is None else toml
+
+
+HELPER_SRC = """from hypercorn.logging import Logger
+
+
+class QuietLogger(Logger):
+    def __init__(self, config):
+        self.config = config
+
+
+def make_logger(config):
+    return QuietLogger(config)
+"""
+
+
+def _key_values(rng, helper: Optional[str] = None) -> Dict[str, List[PyVal]]:
+    """every public key of Config with values of its type(s); `helper` = name of an importable module holding HELPER_SRC"""
+    import logging
     from hypercorn.config import Config
     strs = {"ca_certs", "certfile", "keyfile", "keyfile_password", "logconfig", "pid_path", "statsd_host", "accesslog"}
     ints = {"group", "umask", "user", "read_timeout", "max_requests"}
-    out: Dict[str, List[Any]] = {}
+    out: Dict[str, List[PyVal]] = {}
     for name in sorted(n for n in vars(Config) if not n.startswith("_")):
         d = vars(Config)[name]
-        if callable(d) or isinstance(d, (property, classmethod, staticmethod)) or name in ("logger_class",):
-            continue
-        if isinstance(d, bool):
-            vals: List[Any] = [not d]
+        if isinstance(d, (property, classmethod, staticmethod)) or (callable(d) and not isinstance(d, type)):
+            continue                       # methods and properties (bind, root_path, log ... are handled below)
+        if isinstance(d, type):
+            vals: List[Any] = []           # a class-valued setting (logger_class): values come from the helper module
+        elif isinstance(d, bool):
+            vals = [not d]
         elif isinstance(d, int):
             vals = [d + rng.randint(1, 50), 0]
         elif isinstance(d, float):
@@ -283,77 +308,160 @@ def _key_values(rng) -> Dict[str, List[Any]]:
         elif d is None and name == "logconfig_dict":
             vals = [{"version": 1}]
         else:
-            continue
-        out[name] = vals
-    out["bind"] = ["0.0.0.0:%d" % rng.randint(1000, 9999), ["a:1", "b:2"]]
-    out["insecure_bind"] = ["127.0.0.1:80", ["c:3"]]
-    out["quic_bind"] = ["127.0.0.1:443"]
-    out["root_path"] = ["/api/", "/x//", "/plain", ""]
+            vals = []
+        out[name] = [PyVal(v) for v in vals]
+    out["bind"] = [PyVal("0.0.0.0:%d" % rng.randint(1000, 9999)), PyVal(["a:1", "b:2"])]
+    out["insecure_bind"] = [PyVal("127.0.0.1:80"), PyVal(["c:3"])]
+    out["quic_bind"] = [PyVal("127.0.0.1:443")]
+    out["root_path"] = [PyVal("/api/"), PyVal("/x//"), PyVal("/plain"), PyVal("")]
+    # values that are not literals: Logger instances, ssl enum members, and the callable setting logger_class
+    for key in ("accesslog", "errorlog"):
+        nm = f"c19.{key}.{rng.randint(0, 99)}"
+        out[key].append(PyVal(logging.getLogger(nm), f"logging.getLogger({nm!r})", "import logging\n"))
+    mode = rng.choice(["CERT_OPTIONAL", "CERT_REQUIRED"])
+    out["verify_mode"].append(PyVal(ssl.VerifyMode[mode], f"ssl.VerifyMode.{mode}", "import ssl\n"))
+    flag = rng.choice(["VERIFY_X509_STRICT", "VERIFY_CRL_CHECK_LEAF"])
+    out["verify_flags"].append(PyVal(ssl.VerifyFlags[flag], f"ssl.VerifyFlags.{flag}", "import ssl\n"))
+    if helper is not None:
+        mod = importlib.import_module(helper)
+        out["logger_class"] += [PyVal(mod.QuietLogger, f"{helper}.QuietLogger", f"import {helper}\n"),
+                                PyVal(mod.make_logger, f"{helper}.make_logger", f"import {helper}\n")]
     return out
 
 
-def _py_literal(v: Any) -> str:
-    return repr(v)
+def _attr_kind(v: Any) -> str:
+    import types
+    if isinstance(v, types.ModuleType):
+        return "module"
+    if isinstance(v, type):
+        return "class"
+    return "function" if callable(v) else "plain"
+
+
+def _jv(v: Any) -> Any:
+    """JSON view of a stored value (what the model carries opaquely)"""
+    try:
+        if json.loads(json.dumps(v)) == v and not isinstance(v, tuple):
+            return v
+    except (TypeError, ValueError):
+        pass
+    return {"py": repr(v)}
+
+
+def _model_attrs(obj: Any) -> List[list]:
+    """the attributes `from_object` sees on `obj`, as the model's (name, kind, value) triples"""
+    return [[n, _attr_kind(getattr(obj, n)), 0 if n.startswith("__") or _attr_kind(getattr(obj, n)) == "module" else _jv(getattr(obj, n))]
+            for n in dir(obj)]
+
+
+LOADERS = ["mapping", "kwargs", "object", "class", "module", "module.attr", "pyfile", "toml", "cli_file", "cli_python", "cli_toml"]
 
 
 def check_loaders(ctx: Ctx) -> None:
     from hypercorn.config import Config
     rng = ctx.rng
-    kv = _key_values(rng)
     tmp = Path(tempfile.mkdtemp(prefix="c19ld"))
     sys.path.insert(0, str(tmp))
+    tag = f"e{ctx.evaluations}"                     # unique within the process (run() may be entered twice), stable per seed
+    helper = f"c19types_{tag}"
+    (tmp / f"{helper}.py").write_text(HELPER_SRC)
     reqs, metas = [], []
+    made: List[str] = [helper]
     try:
+        kv = _key_values(rng, helper)
+        public = sorted(n for n in vars(Config) if not n.startswith("_") and not isinstance(vars(Config)[n], (classmethod, staticmethod))
+                        and (isinstance(vars(Config)[n], (property, type)) or not callable(vars(Config)[n])))
+        settable = [n for n in public if not (isinstance(vars(Config)[n], property) and vars(Config)[n].fset is None)]
+        uncovered = [n for n in settable if not kv.get(n) and n != "cert_reqs"]     # cert_reqs: write-only alias, via the CLI family
+        ctx.extra["loader_keys"] = {"settable": len(settable), "covered": len([n for n in settable if kv.get(n)]), "uncovered": uncovered}
+        if uncovered:
+            ctx.violation("loader_key_coverage", {"family": "loaders", "keys": uncovered}, "the generator has no value for these settings",
+                          {"family": "loaders", "coverage": True})
         n = 0
         for key, vals in kv.items():
-            for v in vals:
+            for pv in vals:
+                v = pv.value
                 n += 1
                 results: Dict[str, Any] = {}
+                objs: Dict[str, Any] = {}
                 results["mapping"] = Config.from_mapping({key: v})
                 results["kwargs"] = Config.from_mapping(**{key: v})
                 obj = type("O", (), {})()
                 setattr(obj, key, v)
+                objs["object"] = obj
                 results["object"] = Config.from_object(obj)
-                modname = f"c19mod_{os.getpid()}_{id(ctx) % 100000}_{ctx.evaluations}_{n}"
-                (tmp / f"{modname}.py").write_text(f"import os\n{key} = {_py_literal(v)}\n__dunder_x__ = 1\n")
+                objs["class"] = type("Settings", (), {key: v})
+                results["class"] = Config.from_object(objs["class"])
+                modname = f"c19mod_{tag}_{n}"
+                (tmp / f"{modname}.py").write_text(f"import os\n{pv.imports}{key} = {pv.expr}\n__dunder_x__ = 1\n")
+                objs["module"] = importlib.import_module(modname)
                 results["module"] = Config.from_object(modname)
-                sys.modules.pop(modname, None)
-                (tmp / f"cfg{n}.py").write_text(f"import sys\n{key} = {_py_literal(v)}\n")
+                attrmod = f"c19att_{tag}_{n}"
+                (tmp / f"{attrmod}.py").write_text(f"{pv.imports}\n\nclass settings:\n    {key} = {pv.expr}\n")
+                results["module.attr"] = Config.from_object(f"{attrmod}.settings")
+                (tmp / f"cfg{n}.py").write_text(f"import sys\n{pv.imports}{key} = {pv.expr}\n")
                 results["pyfile"] = Config.from_pyfile(str(tmp / f"cfg{n}.py"))
-                toml_ok = not isinstance(v, dict)
-                if toml_ok:
+                results["cli_file"] = run_main(["-c", f"file:{tmp / f'cfg{n}.py'}", "app:app"])
+                sys.modules.pop(modname, None)
+                results["cli_python"] = run_main(["-c", f"python:{modname}", "app:app"])
+                made += [modname, attrmod]
+                if pv.toml:
                     (tmp / f"cfg{n}.toml").write_text(f"{key} = {json.dumps(v)}\n")
                     results["toml"] = Config.from_toml(str(tmp / f"cfg{n}.toml"))
+                    results["cli_toml"] = run_main(["-c", str(tmp / f"cfg{n}.toml"), "app:app"])
                 else:
                     ctx.count("loaders.toml_skipped", key)
                 snaps = {k: snapshot(c) for k, c in results.items()}
+                for k in ("cli_file", "cli_python", "cli_toml"):
+                    if k in snaps:
+                        snaps[k].pop("application_path", None)
                 ref = snaps["mapping"]
                 ctx.evaluations += len(snaps)
+                vclass = "literal" if pv.imports == "" else _attr_kind(v) + ":" + type(v).__name__
+                ctx.count("loaders.value", vclass)
+                case = {"family": "loaders", "key": key, "value": _jv(v), "expr": pv.expr, "imports": pv.imports}
                 for lname, s in snaps.items():
                     ctx.count("loaders.loader", lname)
-                    ctx.distinct(["loader", lname, key])
-                    s2 = dict(s)
-                    if s2 != ref:
-                        diff = {a: (ref.get(a), s2.get(a)) for a in set(ref) | set(s2) if ref.get(a) != s2.get(a)}
-                        ctx.violation("loaders_agree", {"family": "loaders", "key": key, "value": v, "loader": lname}, diff,
-                                      {"family": "loaders", "loader": lname})
-                # the setting itself took effect (through the public attribute)
-                got = getattr(results["mapping"], key)
+                    ctx.distinct(["loader", lname, key, vclass])
+                    if s != ref:
+                        diff = {a: (ref.get(a), s.get(a)) for a in set(ref) | set(s) if ref.get(a) != s.get(a)}
+                        ctx.violation("loaders_agree", dict(case, loader=lname), diff, {"family": "loaders", "loader": lname})
+                # the setting itself took effect (through the public attribute) — for every loader
                 want = v
                 if key in ("bind", "insecure_bind", "quic_bind") and isinstance(v, str):
                     want = [v]
                 if key == "root_path":
                     want = v.rstrip("/")
-                    if got.endswith("/"):
-                        ctx.violation("root_path_trailing_slash", {"family": "loaders", "key": key, "value": v}, got, {"family": "loaders", "key": "root_path"})
-                if got != want:
-                    ctx.violation("setting_effect", {"family": "loaders", "key": key, "value": v}, {"got": got, "want": want}, {"family": "loaders", "key": key})
-                ctx.sample({"family": "loaders", "key": key, "value": v}, cap=3)
-                if isinstance(v, (str, list, int, bool, float)):
-                    reqs.append({"cmd": "c19.from_mapping", "object": True, "items": [[key, v], ["__dunder__", 1], ["log", 1]]})
-                    metas.append((key, v, results["object"]))
+                for lname, cfg in results.items():
+                    got = getattr(cfg, key)
+                    if key == "root_path" and got.endswith("/"):
+                        ctx.violation("root_path_trailing_slash", dict(case, loader=lname), got, {"family": "loaders", "key": "root_path"})
+                    if not (got is want or (pv.imports == "" and got == want)):
+                        ctx.violation("setting_effect", dict(case, loader=lname), {"got": repr(got), "want": repr(want)},
+                                      {"family": "loaders", "key": key, "loader": lname})
+                    if key == "logger_class":
+                        # the effect of the setting: the server's logger (`config.log`) is built by the given class / factory
+                        made_by = type(cfg.log).__qualname__
+                        if made_by != "QuietLogger":
+                            ctx.violation("setting_effect", dict(case, loader=lname), {"config.log built by": made_by, "want": "QuietLogger"},
+                                          {"family": "loaders", "key": key, "loader": lname, "effect": "config.log"})
+                ctx.sample(case, cap=3)
+                # correspondence: the stored attributes, against the model's from_mapping / from_object on what the loader sees
+                reqs.append({"cmd": "c19.from_mapping", "items": [[key, _jv(v)], ["__dunder__", 1], ["log", 1]]})
+                metas.append((dict(case, loader="mapping"), Config.from_mapping({key: v, "__dunder__": 1, "log": 1})))
+                for lname in ("object", "class", "module"):
+                    reqs.append({"cmd": "c19.from_object", "items": _model_attrs(objs[lname])})
+                    metas.append((dict(case, loader=lname), results[lname]))
+        # an object that also carries things that are not settings: a helper function, a class, a module, a dunder name
+        mod = importlib.import_module(helper)
+        extra = type("WithHelpers", (), {})()
+        extra.workers, extra.helper, extra.Helper, extra.os, extra.__private__ = 3, mod.make_logger, mod.QuietLogger, os, 1
+        reqs.append({"cmd": "c19.from_object", "items": _model_attrs(extra)})
+        metas.append(({"family": "loaders", "key": "workers", "value": 3, "loader": "object+helpers"}, Config.from_object(extra)))
     finally:
         sys.path.remove(str(tmp))
+        for m in made:
+            sys.modules.pop(m, None)
         for f in tmp.glob("*"):
             if f.is_dir():
                 for g in f.glob("*"):
@@ -364,12 +472,12 @@ def check_loaders(ctx: Ctx) -> None:
         tmp.rmdir()
     model = ctx.model(reqs)
     if model is not None:
-        for m, (key, v, cfg) in zip(model, metas):
+        for m, (case, cfg) in zip(model, metas):
             ctx.disagreements_checked += 1
             store = dict((k, val) for k, val in m.get("ok", []))
-            impl = {k: val for k, val in vars(cfg).items() if k != "_log"}
+            impl = {k: _jv(val) for k, val in vars(cfg).items() if k != "_log"}
             if json.loads(json.dumps(impl)) != store:
-                ctx.disagree("c19.from_mapping", {"family": "loaders", "key": key, "value": v}, store, impl)
+                ctx.disagree("c19." + ("from_mapping" if case["loader"] == "mapping" else "from_object"), case, store, impl)
 
 
 # --------------------------------------------------------------------------------------------------------------
